@@ -71,7 +71,7 @@ def run(name, gen, cmd, trace, tier, seed, ctxs=CTXS, maxnodes=None, extra_cfg=N
 
 
 def run_single(name, gen, gen_cfg_lines, cmd, trace, tier, seed, count_event=None, sample_event=None, trace_env=None,
-               gen_defs=(), trace_workers=12, sample_mod=97):
+               gen_defs=(), trace_workers=12, sample_mod=97, pre=None):
     """context-free pipeline: one Gen run, one harness run, one Trace run"""
     wd = workdir(name + "_" + tier)
     build_harness()
@@ -101,13 +101,15 @@ def run_single(name, gen, gen_cfg_lines, cmd, trace, tier, seed, count_event=Non
                     stats["samples"].append(s)
     r = tlc(wd, trace, trace + ".cfg", env=dict({"TRACE": obs}, **(trace_env or {})), workers=trace_workers, heap="12g", timeout=3300)
     done = r.tagged("TRACE_DONE")
-    if not r.ok or not done or done[0][1] != nev or done[0][2] < nev + 1:
+    if not r.ok or not done or done[0][1] != nev or done[0][2] < nev:
         log(r.out[-4000:])
         raise ToolError("%s did not complete" % trace)
     verdicts = [{"prop": v[1], "clause": v[2], "event": v[3], "j": v[4], "detail": v[5], "ctx": name, "obs": obs} for v in r.tagged("VERDICT")]
     stats["events"] = nev
-    stats["states"] = r.distinct
-    stats["transitions"] = r.generated
+    if pre:
+        pre(wd, stats)
+    stats["states"] = stats.get("states", 0) + r.distinct
+    stats["transitions"] = stats.get("transitions", 0) + r.generated
     stats["wall"] = time.time() - t0
     log("%s: %d events, %d verdict lines (%.1fs)" % (trace, nev, len(verdicts), r.secs))
     return {"verdicts": verdicts, "stats": stats, "wd": wd}
